@@ -74,6 +74,8 @@ def check(a):
     cfg = dict(TIERS[(prop, tier)])
     profile = 'c10' if prop == 'C10' else 'c01'
     known = simlib.load_known()
+    import shutil
+    shutil.rmtree(os.path.join(simlib.REPLAYS, prop), ignore_errors=True)  # replay files of this run only
     pools = {}
     deadline = t0 + (900 if tier == 'quick' else 6 * 3600)
     for std in (14, 17):
